@@ -41,22 +41,38 @@ pub fn flat_tokens(text: &str) -> Vec<String> {
     let Ok(ts) = TokenStream::from_str(text) else { return vec!["<<lex error>>".into()] };
     let mut raw = vec![];
     flatten(ts, &mut raw);
-    // merge joint punctuation
+    // merge joint punctuation, but only into real multi-character operators: spacing of other
+    // punctuation (`#!` vs `# !`) is not significant
+    const OPS: &[&str] = &[
+        "::", "->", "=>", "==", "!=", "<=", ">=", "&&", "||", "<<", ">>", "+=", "-=", "*=", "/=", "%=", "^=", "&=", "|=", "<<=", ">>=", "..", "...", "..=",
+    ];
     let mut out: Vec<String> = vec![];
     let mut pending = String::new();
+    let flush = |pending: &mut String, out: &mut Vec<String>| {
+        if pending.is_empty() {
+            return;
+        }
+        if OPS.contains(&pending.as_str()) {
+            out.push(std::mem::take(pending));
+        } else {
+            for c in pending.chars() {
+                out.push(c.to_string());
+            }
+            pending.clear();
+        }
+    };
     for t in raw {
         if let Some(c) = t.strip_suffix('\u{1}') {
             pending.push_str(c);
-        } else if !pending.is_empty() {
+        } else if !pending.is_empty() && t.chars().count() == 1 && !t.chars().next().unwrap().is_alphanumeric() && t != "(" && t != ")" && t != "[" && t != "]" && t != "{" && t != "}" && t != "_" {
             pending.push_str(&t);
-            out.push(std::mem::take(&mut pending));
+            flush(&mut pending, &mut out);
         } else {
+            flush(&mut pending, &mut out);
             out.push(t);
         }
     }
-    if !pending.is_empty() {
-        out.push(pending);
-    }
+    flush(&mut pending, &mut out);
     out
 }
 
@@ -489,6 +505,21 @@ impl Walker {
                     }
                     block_index += 1;
                     continue;
+                }
+                syn::Item::Trait(t) => {
+                    item.kind = "trait".into();
+                    item.name = t.ident.to_string();
+                }
+                syn::Item::TraitAlias(t) => {
+                    item.kind = "trait_alias".into();
+                    item.name = t.ident.to_string();
+                }
+                syn::Item::ExternCrate(c) => {
+                    item.kind = "extern_crate".into();
+                    item.name = c.ident.to_string();
+                }
+                syn::Item::Verbatim(_) => {
+                    item.kind = "verbatim".into();
                 }
                 syn::Item::Macro(m) => {
                     item.kind = "macro".into();
